@@ -382,6 +382,9 @@ type readerCase struct {
 	// exactly full when the partition reader has delivered everything; broker state error-fetch then gives it an error to
 	// report (a fetch answered with TOPIC_AUTHORIZATION_FAILED) while there is no room for it.
 	QueueCap int `json:"queue_cap,omitempty"`
+	// FutureCodec: after the records the partitions hold one more batch, compressed with a codec id the library does not
+	// know: the reader cannot proceed and says so; whatever it opened while trying must be released by Close
+	FutureCodec bool `json:"future_codec,omitempty"`
 }
 
 func runReader(tb ev.TB, c readerCase) (labels []string, nontrivial bool) {
@@ -397,6 +400,9 @@ func runReader(tb ev.TB, c readerCase) (labels []string, nontrivial bool) {
 		}
 		if len(recs) > 0 {
 			cl.AppendBatches("t", p, refcodec.MakeBatchV2(recs, 0))
+		}
+		if c.FutureCodec {
+			cl.AppendBatches("t", p, refcodec.MakeBatchV2([]refcodec.Record{{Offset: int64(c.Records), Timestamp: 99, Value: []byte("sealed")}}, 5))
 		}
 	}
 	var mu sync.Mutex
@@ -744,6 +750,10 @@ func TestReaderClose(t *testing.T) {
 			c.FetchFirst = rapid.IntRange(0, 3).Draw(t, "fqFetchFirst")
 			c.Records = c.QueueCap + c.FetchFirst
 			c.DelayUs = 450000
+		}
+		if c.QueueCap == 0 && rapid.IntRange(0, 9).Draw(t, "futureCodec") == 0 {
+			c.FutureCodec, c.Group, c.Blocked, c.Event, c.BrokerState, c.CloseDuring = true, false, "none", "close", "normal", ""
+			c.DelayUs = rapid.SampledFrom([]int{2000, 30000, 100000}).Draw(t, "fcDelayUs")
 		}
 		ev.InFlight("reader", c)
 		labels, nt := runReader(t, c)
